@@ -1,0 +1,240 @@
+//go:build verif
+
+// Contracts for package ship (comment-only; see /verif/DESIGN.md).
+// This file contains no declarations: with and without the `verif` tag the compiled code is identical.
+package ship
+
+// ---- SHIP 1.0.1 section 13.4 state diagram as a table (spec, not derived from the code) ----
+
+//@ table edge reflexive sink=model.SmeStateError roles=client=ShipRoleClient,server=ShipRoleServer
+//@ row client: model.CmiStateInitStart>model.CmiStateClientSend model.CmiStateClientSend>model.CmiStateClientWait model.CmiStateClientWait>model.CmiStateClientEvaluate model.CmiStateClientEvaluate>model.SmeHelloState
+//@ row server: model.CmiStateInitStart>model.CmiStateServerWait model.CmiStateServerWait>model.CmiStateServerEvaluate model.CmiStateServerEvaluate>model.SmeHelloState
+//@ row both: model.SmeHelloState>model.SmeHelloStateReadyInit model.SmeHelloState>model.SmeHelloStatePendingInit
+//@ row both: model.SmeHelloStateReadyInit>model.SmeHelloStateReadyListen model.SmeHelloStateReadyInit>model.SmeHelloStateAbort
+//@ row both: model.SmeHelloStateReadyListen>model.SmeHelloStateOk model.SmeHelloStateReadyListen>model.SmeHelloStateAbort model.SmeHelloStateReadyListen>model.SmeHelloStateRemoteAbortDone model.SmeHelloStateReadyListen>model.SmeHelloStateRejected
+//@ row both: model.SmeHelloStatePendingInit>model.SmeHelloStatePendingListen
+//@ row both: model.SmeHelloStatePendingListen>model.SmeHelloStateReadyInit model.SmeHelloStatePendingListen>model.SmeHelloStateAbort model.SmeHelloStatePendingListen>model.SmeHelloStateRemoteAbortDone
+//@ row both: model.SmeHelloStateAbort>model.SmeHelloStateAbortDone
+//@ row server: model.SmeHelloStateOk>model.SmeProtHStateServerInit model.SmeProtHStateServerInit>model.SmeProtHStateServerListenProposal model.SmeProtHStateServerListenProposal>model.SmeProtHStateServerListenConfirm model.SmeProtHStateServerListenConfirm>model.SmeProtHStateServerOk model.SmeProtHStateServerOk>model.SmePinStateCheckInit
+//@ row client: model.SmeHelloStateOk>model.SmeProtHStateClientInit model.SmeProtHStateClientInit>model.SmeProtHStateClientListenChoice model.SmeProtHStateClientListenChoice>model.SmeProtHStateClientOk model.SmeProtHStateClientOk>model.SmePinStateCheckInit
+//@ row both: model.SmePinStateCheckInit>model.SmePinStateCheckListen model.SmePinStateCheckListen>model.SmePinStateCheckOk model.SmePinStateCheckOk>model.SmeAccessMethodsRequest model.SmeAccessMethodsRequest>model.SmeStateApproved model.SmeStateApproved>model.SmeStateComplete
+//@ derive reach := closure(edge)
+//@ derive rank := rank(edge)
+
+//@ pred terminal(s int) := s in {model.SmeStateError, model.SmeHelloStateAbort, model.SmeHelloStateAbortDone, model.SmeHelloStateRemoteAbortDone, model.SmeHelloStateRejected}
+//@ pred postTrust(s int) := s in {model.SmeHelloStateReadyInit, model.SmeHelloStateReadyListen, model.SmeHelloStateOk} || (18 <= s && s <= 38)
+//@ pred phase(s int) int := ite(s <= 5, 0, ite(s <= 17, 1, ite(s <= 25, 2, ite(s <= 35, 3, ite(s == 36, 4, ite(s == 37, 5, ite(s == 38, 6, 7)))))))
+//@ pred validRole(r string) := r == ShipRoleClient || r == ShipRoleServer
+//@ pred stepOK(r string, s0 int, s1 int) := reach(r, s0, s1) && (terminal(s0) ==> terminal(s1))
+
+// Lemmas over the tables (ground; re-proved on every run)
+//@ lemma [C04] L2-phase: forall r: string :: forall s: int :: forall t: int :: validRole(r) && 0 <= s && s <= 39 && 0 <= t && t <= 38 && edge(r, s, t) && !terminal(s) && !terminal(t) ==> phase(s) <= phase(t) && phase(t) <= phase(s) + 1
+//@ lemma [C04] L3-final: forall r: string :: forall s: int :: forall t: int :: validRole(r) && terminal(s) && reach(r, s, t) ==> terminal(t)
+//@ lemma [C04] L4-rank: forall r: string :: forall s: int :: forall t: int :: validRole(r) && 0 <= s && s <= 39 && 0 <= t && t <= 39 && s != t && edge(r, s, t) ==> rank(r, t) < rank(r, s)
+//@ lemma [C01] L1-gate: forall r: string :: forall s: int :: forall t: int :: validRole(r) && edge(r, s, t) && postTrust(t) && !postTrust(s) ==> t == model.SmeHelloStateReadyInit && (s == model.SmeHelloState || s == model.SmeHelloStatePendingListen)
+
+//@ immutable ShipConnection.role, ShipConnection.remoteSKI, ShipConnection.localShipID, ShipConnection.infoProvider, ShipConnection.dataWriter, ShipConnection.handshakeTimerStopChan
+//@ typeinv (c *ShipConnection) validRole(c.role) && c.infoProvider != nil && c.dataWriter != nil
+
+// ---- leaf accessors: inlined ----
+//@ func (c *ShipConnection).getState() inline
+//@ func (c *ShipConnection).RemoteSKI() inline
+//@ func (c *ShipConnection).DataHandler() inline
+//@ func (c *ShipConnection).setHandshakeTimerRunning(value) inline
+//@ func (c *ShipConnection).getHandshakeTimerRunning() inline
+//@ func (c *ShipConnection).setHandshakeTimerType(timerType) inline
+//@ func (c *ShipConnection).getHandshakeTimerType() inline
+//@ func (c *ShipConnection).processShipJsonMessage(message, target) inline
+//@ func (c *ShipConnection).hasSpineDatagram(message) inline
+//@ func (c *ShipConnection).protocolHandshake() inline
+
+// ---- library-like helpers (reflection based): contract assumed, listed as trusted ----
+//@ func JsonFromEEBUSJson(json) trusted pure
+//@ func JsonIntoEEBUSJson(data) trusted pure
+
+//@ func (c *ShipConnection).parseMessage(msg, jsonFormat) pure
+//@   ensures len(msg) == 0 ==> result.0 == 0 && result.1 == nil
+
+// ---- state setting ----
+
+//@ func (c *ShipConnection).setState(newState, err) [C04,C01]
+//@   requires [C04] E1-edge: edge(c.role, c.smeState, newState)
+//@   requires [C04] E2-final: terminal(c.smeState) ==> terminal(newState)
+//@   requires [C01] G1-gate: postTrust(newState) && !postTrust(c.smeState) ==> newState == model.SmeHelloStateReadyInit && ($Trusted[c.remoteSKI] || $AutoAccept || c.role == ShipRoleClient)
+//@   ensures c.smeState == newState
+//@   modifies c.smeState, c.smeError, c.handshakeTimerRunning, c.handshakeTimerType, $Trusted[c.remoteSKI]
+
+//@ func (c *ShipConnection).setHandshakeTimer(timerType, duration)
+//@   ensures c.handshakeTimerRunning && c.handshakeTimerType == timerType
+//@   modifies c.handshakeTimerRunning, c.handshakeTimerType
+//@ func (c *ShipConnection).stopHandshakeTimer()
+//@   ensures !c.handshakeTimerRunning
+//@   modifies c.handshakeTimerRunning
+
+// ---- everything a handshake step may touch ----
+//@ modset hs(c) := c.smeState, c.smeError, c.handshakeTimerRunning, c.handshakeTimerType, c.lastReceivedWaitingValue, c.remoteShipID, c.dataReader, c.spineBuffer, c.shutdownOnce.$done, $Trusted[c.remoteSKI], c.$reports, c.$setup, c.$idReports, c.$closeCalled, c.$closeScheduled, c.$everApproved, c.dataWriter.$wsClosed, c.dataWriter.$writes
+//@ modset cl(c) := c.handshakeTimerRunning, c.shutdownOnce.$done, c.$reports, c.$closeCalled, c.$closeScheduled, c.dataWriter.$wsClosed, c.dataWriter.$writes
+
+// object invariant: the state is one the role can reach from INIT_START along diagram edges
+//@ pred roleOK(r string, s int) := reach(r, model.CmiStateInitStart, s)
+//@ objinv (c *ShipConnection) [C04] I1-reachable: roleOK(c.role, c.smeState)
+
+// ---- sending ----
+//@ func (c *ShipConnection).shipMessage(typ, model)
+//@   ensures c.smeState == old(c.smeState)
+//@   modifies @cl(c)
+//@ func (c *ShipConnection).sendShipModel(typ, model)
+//@   ensures c.smeState == old(c.smeState)
+//@   modifies @cl(c)
+//@ func (c *ShipConnection).handshakeHelloSend(phase, waitingDuration, prolongation)
+//@   ensures c.smeState == old(c.smeState)
+//@   modifies @cl(c)
+
+// ---- closing ----
+//@ func (c *ShipConnection).CloseConnection(safe, code, reason) entry [C04,C11]
+//@   ensures c.smeState == old(c.smeState)
+//@   ensures c.shutdownOnce.$done
+//@   modifies @cl(c)
+//@ func (c *ShipConnection).endHandshakeWithError(err)
+//@   requires err != nil
+//@   ensures c.smeState == model.SmeStateError
+//@   modifies @hs(c)
+//@ func (c *ShipConnection).abortProtocolHandshake(err)
+//@   ensures c.smeState == model.SmeStateError
+//@   modifies @hs(c)
+
+// ---- dispatch ----
+//@ func (c *ShipConnection).handleState(timeout, message) [C04,C01]
+//@   requires roleOK(c.role, c.smeState)
+//@   ensures [C04] E3-step: stepOK(c.role, old(c.smeState), c.smeState)
+//@   modifies @hs(c)
+//@ func (c *ShipConnection).setAndHandleState(state) [C04,C01]
+//@   requires roleOK(c.role, c.smeState)
+//@   requires [C04] E1-edge: edge(c.role, c.smeState, state)
+//@   requires [C04] E2-final: terminal(c.smeState) ==> terminal(state)
+//@   requires [C01] G1-gate: postTrust(state) && !postTrust(c.smeState) ==> state == model.SmeHelloStateReadyInit && ($Trusted[c.remoteSKI] || $AutoAccept || c.role == ShipRoleClient)
+//@   ensures [C04] E3-step: stepOK(c.role, state, c.smeState)
+//@   modifies @hs(c)
+//@ func (c *ShipConnection).handleShipMessage(timeout, message) [C04,C01]
+//@   requires roleOK(c.role, c.smeState)
+//@   ensures [C04] E3-step: stepOK(c.role, old(c.smeState), c.smeState)
+//@   modifies @hs(c)
+
+// ---- init phase ----
+//@ func (c *ShipConnection).handshakeInit_cmiStateInitStart() [C04]
+//@   requires c.smeState == model.CmiStateInitStart
+//@   ensures [C04] E3-step: stepOK(c.role, old(c.smeState), c.smeState)
+//@   modifies @hs(c)
+//@ func (c *ShipConnection).handshakeInit_cmiStateServerWait(message) [C04]
+//@   requires c.smeState == model.CmiStateServerWait && roleOK(c.role, c.smeState)
+//@   ensures [C04] E3-step: stepOK(c.role, old(c.smeState), c.smeState)
+//@   modifies @hs(c)
+//@ func (c *ShipConnection).handshakeInit_cmiStateClientWait(message) [C04]
+//@   requires c.smeState == model.CmiStateClientWait && roleOK(c.role, c.smeState)
+//@   ensures [C04] E3-step: stepOK(c.role, old(c.smeState), c.smeState)
+//@   modifies @hs(c)
+//@ func (c *ShipConnection).handshakeInit_cmiStateEvaluate(message) [C04]
+//@   requires c.smeState == model.CmiStateServerEvaluate || c.smeState == model.CmiStateClientEvaluate
+//@   ensures result ==> c.smeState == old(c.smeState)
+//@   ensures !result ==> c.smeState == model.SmeStateError
+//@   modifies @hs(c)
+
+// ---- hello phase ----
+//@ func (c *ShipConnection).handshakeHello_Init() [C04,C01]
+//@   requires c.smeState == model.SmeHelloStateReadyInit && roleOK(c.role, c.smeState)
+//@   ensures [C04] E3-step: stepOK(c.role, old(c.smeState), c.smeState)
+//@   modifies @hs(c)
+//@ func (c *ShipConnection).handshakeHello_ReadyListen(timeout, message) [C04,C01]
+//@   requires c.smeState == model.SmeHelloStateReadyListen && roleOK(c.role, c.smeState)
+//@   ensures [C04] E3-step: stepOK(c.role, old(c.smeState), c.smeState)
+//@   modifies @hs(c)
+//@ func (c *ShipConnection).handshakeHello_ReadyTimeout() [C04]
+//@   requires c.smeState == model.SmeHelloStateReadyListen && roleOK(c.role, c.smeState)
+//@   ensures [C04] E3-step: stepOK(c.role, old(c.smeState), c.smeState)
+//@   modifies @hs(c)
+//@ func (c *ShipConnection).handshakeHello_Abort() [C04]
+//@   requires c.smeState == model.SmeHelloStateAbort && roleOK(c.role, c.smeState)
+//@   ensures [C04] E3-step: stepOK(c.role, old(c.smeState), c.smeState)
+//@   modifies @hs(c)
+//@ func (c *ShipConnection).handshakeHello_PendingInit() [C04,C01]
+//@   requires c.smeState == model.SmeHelloStatePendingInit && roleOK(c.role, c.smeState)
+//@   ensures [C04] E3-step: stepOK(c.role, old(c.smeState), c.smeState)
+//@   modifies @hs(c)
+//@ func (c *ShipConnection).handshakeHello_PendingListen(timeout, message) [C04,C01]
+//@   requires c.smeState == model.SmeHelloStatePendingListen && roleOK(c.role, c.smeState)
+//@   ensures [C04] E3-step: stepOK(c.role, old(c.smeState), c.smeState)
+//@   modifies @hs(c)
+//@ func (c *ShipConnection).handshakeHello_PendingProlongationRequest() [C04]
+//@   requires c.smeState == model.SmeHelloStatePendingListen && roleOK(c.role, c.smeState)
+//@   ensures [C04] E3-step: stepOK(c.role, old(c.smeState), c.smeState)
+//@   modifies @hs(c)
+//@ func (c *ShipConnection).handshakeHello_PendingTimeout() [C04]
+//@   requires c.smeState == model.SmeHelloStatePendingListen && roleOK(c.role, c.smeState)
+//@   ensures [C04] E3-step: stepOK(c.role, old(c.smeState), c.smeState)
+//@   modifies @hs(c)
+
+// ---- protocol handshake phase ----
+//@ func (c *ShipConnection).handshakeProtocol_Init() [C04]
+//@   requires c.smeState == model.SmeHelloStateOk && roleOK(c.role, c.smeState)
+//@   ensures [C04] E3-step: stepOK(c.role, old(c.smeState), c.smeState)
+//@   modifies @hs(c)
+//@ func (c *ShipConnection).handshakeProtocol_smeProtHStateServerListenProposal(message) [C04]
+//@   requires c.smeState == model.SmeProtHStateServerListenProposal && roleOK(c.role, c.smeState)
+//@   ensures [C04] E3-step: stepOK(c.role, old(c.smeState), c.smeState)
+//@   modifies @hs(c)
+//@ func (c *ShipConnection).handshakeProtocol_smeProtHStateServerListenConfirm(message) [C04]
+//@   requires c.smeState == model.SmeProtHStateServerListenConfirm && roleOK(c.role, c.smeState)
+//@   ensures [C04] E3-step: stepOK(c.role, old(c.smeState), c.smeState)
+//@   modifies @hs(c)
+//@ func (c *ShipConnection).handshakeProtocol_smeProtHStateClientInit() [C04]
+//@   requires c.smeState == model.SmeProtHStateClientInit && roleOK(c.role, c.smeState)
+//@   ensures [C04] E3-step: stepOK(c.role, old(c.smeState), c.smeState)
+//@   modifies @hs(c)
+//@ func (c *ShipConnection).handshakeProtocol_smeProtHStateClientListenChoice(message) [C04]
+//@   requires c.smeState == model.SmeProtHStateClientListenChoice && roleOK(c.role, c.smeState)
+//@   ensures [C04] E3-step: stepOK(c.role, old(c.smeState), c.smeState)
+//@   modifies @hs(c)
+
+// ---- pin and access methods ----
+//@ func (c *ShipConnection).handshakePin_Init() [C04]
+//@   requires c.smeState == model.SmePinStateCheckInit && roleOK(c.role, c.smeState)
+//@   ensures [C04] E3-step: stepOK(c.role, old(c.smeState), c.smeState)
+//@   modifies @hs(c)
+//@ func (c *ShipConnection).handshakePin_smePinStateCheckListen(message) [C04]
+//@   requires c.smeState == model.SmePinStateCheckListen && roleOK(c.role, c.smeState)
+//@   ensures [C04] E3-step: stepOK(c.role, old(c.smeState), c.smeState)
+//@   modifies @hs(c)
+//@ func (c *ShipConnection).handshakeAccessMethods_Init() [C04]
+//@   requires c.smeState == model.SmePinStateCheckOk && roleOK(c.role, c.smeState)
+//@   ensures [C04] E3-step: stepOK(c.role, old(c.smeState), c.smeState)
+//@   modifies @hs(c)
+//@ func (c *ShipConnection).handshakeAccessMethods_Request(message) [C04,C09]
+//@   requires c.smeState == model.SmeAccessMethodsRequest && roleOK(c.role, c.smeState)
+//@   ensures [C04] E3-step: stepOK(c.role, old(c.smeState), c.smeState)
+//@   modifies @hs(c)
+//@ func (c *ShipConnection).approveHandshake() [C04,C01]
+//@   requires c.smeState == model.SmeStateApproved && roleOK(c.role, c.smeState)
+//@   ensures c.smeState == model.SmeStateComplete
+//@   modifies @hs(c)
+//@ func (c *ShipConnection).processBufferedSpineMessages()
+//@   requires c.dataReader != nil
+//@   modifies c.spineBuffer
+
+// ---- entry points ----
+//@ func (c *ShipConnection).Run() entry [C04]
+//@   modifies @hs(c)
+//@ func (c *ShipConnection).ApprovePendingHandshake() entry [C04,C01]
+//@   requires [C01] G0-approved: $Trusted[c.remoteSKI]
+//@   ensures [C04] E3-step: stepOK(c.role, old(c.smeState), c.smeState)
+//@   modifies @hs(c)
+//@ func (c *ShipConnection).AbortPendingHandshake() entry [C04,C10]
+//@   ensures [C04] E3-step: stepOK(c.role, old(c.smeState), c.smeState)
+//@   modifies @hs(c)
+//@ func (c *ShipConnection).ReportConnectionError(err) entry [C04,C13]
+//@   ensures [C04] E3-step: stepOK(c.role, old(c.smeState), c.smeState)
+//@   modifies @hs(c)
+//@ func (c *ShipConnection).HandleIncomingWebsocketMessage(message) entry [C04,C01,C06]
+//@   ensures [C04] E3-step: stepOK(c.role, old(c.smeState), c.smeState)
+//@   modifies @hs(c)
+//@ func (c *ShipConnection).shipModelFromMessage(message) pure
+//@   ensures result.1 == nil ==> result.0 != nil
